@@ -142,7 +142,7 @@ func init() {
 			return cases
 		},
 		Bounds: stdBounds(
-			map[string]interface{}{"texts": "every 9th prefix / token deletion / token duplication / bracket edit and every 97th insertion/replacement of a token from a 20-token alphabet, of 27 scripts, + 70 hand-written broken texts", "cursor": "every (line, character) with 0 <= line, character <= 2^30 (symbolic)", "map_orders": "every iteration order of the checker's maps (<= 3 entries; larger: identity/reverse/rotation)"},
+			map[string]interface{}{"texts": "every 9th prefix / token deletion / token duplication / bracket edit and every 97th insertion/replacement of a token from a 20-token alphabet, of 27 scripts, + 70 hand-written broken texts", "cursor": "every (line, character) with 0 <= line, character <= 2^30 (symbolic)", "map_orders": "per path one ranged map of the checker (each in turn; two in the thorough tier) takes every iteration order (<= 3 entries; larger: identity/reverse/rotation), the others insertion order"},
 			map[string]interface{}{"texts": "every prefix / token deletion / token duplication / bracket edit and every 7th insertion/replacement from a 20-token alphabet, of 78 scripts, + 70 broken texts", "cursor": "symbolic", "map_orders": "all (<= 3 entries)"}),
 		Assumptions: []string{
 			"SCOPED CLAIM: the text dimension is a bounded corpus (the map from text to partial tree is ANTLR error recovery, outside the encoding); the solver quantifies over cursor positions and map iteration orders on each parser-produced tree",
